@@ -113,18 +113,30 @@ impl Opt {
 // token streams
 // ---------------------------------------------------------------------------------------------
 
+/// Tokens and their attached comments in walk order (what `TokenCollector::new(true)` collects), but
+/// remembering which is which: a token whose TEXT begins with `//` or `/*` (embedded foreign code may) is
+/// still a token.
+#[derive(Default)]
+struct StreamCollector(Vec<(Token, bool)>);
+
+impl VerylWalker for StreamCollector {
+    fn veryl_token(&mut self, arg: &veryl_parser::veryl_token::VerylToken) {
+        self.0.push((arg.token, false));
+        for c in &arg.comments {
+            self.0.push((*c, true));
+        }
+    }
+}
+
 /// `(text, is_comment, token)` of every token and comment, in `TokenCollector` order.
 pub fn token_stream(p: &Parser) -> Vec<(String, bool, Token)> {
-    let mut tc = TokenCollector::new(true);
+    let mut tc = StreamCollector::default();
     tc.veryl(&p.veryl);
-    tc.tokens
-        .iter()
-        .map(|t| {
-            let s = resource_table::get_str_value(t.text).unwrap_or_default();
-            let c = s.starts_with("//") || s.starts_with("/*");
-            (s, c, *t)
-        })
-        .collect()
+    // same sequence as the repository's own collector
+    let mut reference = TokenCollector::new(true);
+    reference.veryl(&p.veryl);
+    debug_assert_eq!(reference.tokens.len(), tc.0.len());
+    tc.0.iter().map(|(t, c)| (resource_table::get_str_value(t.text).unwrap_or_default(), *c, *t)).collect()
 }
 
 pub fn parse_quiet(src: &str, name: &str) -> Option<Parser> {
@@ -140,7 +152,7 @@ pub fn parse_quiet(src: &str, name: &str) -> Option<Parser> {
 
 pub const MUT_KINDS: &[&str] = &[
     "blank+", "blank-", "join", "split", "spaces", "tabs", "cmt-line", "cmt-block", "cmt-multi", "cmt-mb", "crlf", "mixed-nl",
-    "sep-toggle", "split-all", "join-all",
+    "sep-toggle", "split-all", "join-all", "cmt-sep", "mb-string",
 ];
 
 const LINE_CMTS: &[&str] = &["// c\n", "//\n", "// é日本語 \n", "/// doc\n", "// trailing blanks   \n", "//a\n"];
@@ -276,6 +288,26 @@ pub fn mutant(r: &mut Rng, src: &str, name: &str) -> Option<(String, Vec<&'stati
                         kinds.push(kind);
                     }
                 }
+                "cmt-sep" => {
+                    // a comment right after a separator (`,`) — where list walkers take comments from
+                    let commas: Vec<usize> = (0..gaps.len()).filter(|k| !texts[*k].1 && texts[*k].0 == ",").collect();
+                    if !commas.is_empty() {
+                        let k = *r.pick(&commas);
+                        let c = *r.pick(&[" /* s */", " // s\n", " /* é */ ", "\n// s\n"]);
+                        let old = gaps[k].clone();
+                        gaps[k] = format!("{c}{old}");
+                        kinds.push(kind);
+                    }
+                }
+                "mb-string" => {
+                    // multi-byte text inside a string literal: an anchored multi-byte token in the emitted SV
+                    let strs: Vec<usize> = (0..texts.len()).filter(|k| !texts[*k].1 && texts[*k].0.starts_with('"') && texts[*k].0.len() >= 2).collect();
+                    if !strs.is_empty() {
+                        let k = *r.pick(&strs);
+                        texts[k].0.insert_str(1, *r.pick(&["温度センサ ", "é", "ß→λ 😀 "]));
+                        kinds.push(kind);
+                    }
+                }
                 "sep-toggle" => {
                     // remove an optional trailing separator, or add one before a closer
                     let cands: Vec<usize> = (0..texts.len() - 1)
@@ -339,6 +371,89 @@ pub fn mutant(r: &mut Rng, src: &str, name: &str) -> Option<(String, Vec<&'stati
         }
     }
     None
+}
+
+/// A comment after EVERY `,` of the text (alternating block / line comments with distinct texts), and — if
+/// `add_trailing` — an optional trailing `,` plus comment in every bracketed list that lacks one (imports, ports,
+/// parameters, arguments, members, keys …). `None` if nothing changes or the result does not parse.
+pub fn separator_mutant(src: &str, name: &str, add_trailing: bool) -> Option<String> {
+    let p = parse_quiet(src, name)?;
+    let toks = token_stream(&p);
+    let (pre, mut texts, mut gaps, post) = split_gaps(src, &toks)?;
+    let code: Vec<usize> = (0..texts.len()).filter(|k| !texts[*k].1).collect();
+    let mut n = 0usize;
+    if add_trailing {
+        // bracket pairs over the code tokens; a pair with a top-level `,` is a list
+        let mut stack: Vec<(usize, bool)> = vec![];
+        let mut add_after: Vec<usize> = vec![];
+        for (ci, &k) in code.iter().enumerate() {
+            match texts[k].0.as_str() {
+                "(" | "{" | "[" | "#(" | "'{" => stack.push((ci, false)),
+                "," => {
+                    if let Some(top) = stack.last_mut() {
+                        top.1 = true;
+                    }
+                }
+                ")" | "}" | "]" => {
+                    if let Some((_, has_comma)) = stack.pop() {
+                        if has_comma && ci > 0 && texts[code[ci - 1]].0 != "," {
+                            add_after.push(code[ci - 1]);
+                        }
+                    }
+                }
+                _ => {}
+            }
+        }
+        for k in add_after {
+            n += 1;
+            texts[k].0.push_str(&format!(", /* t{n} */"));
+        }
+    }
+    for k in 0..gaps.len() {
+        if !texts[k].1 && texts[k].0 == "," {
+            n += 1;
+            let old = gaps[k].clone();
+            gaps[k] = if n % 2 == 0 { format!(" /* s{n} */{old}") } else { format!(" // s{n}\n{old}") };
+        }
+    }
+    if n == 0 {
+        return None;
+    }
+    let mut out = pre;
+    for (k, (t, _)) in texts.iter().enumerate() {
+        out.push_str(t);
+        if k < gaps.len() {
+            out.push_str(&gaps[k]);
+        }
+    }
+    out.push_str(&post);
+    parse_quiet(&out, name).map(|_| out)
+}
+
+/// Multi-byte text put into EVERY string literal of the text. `None` if there is none.
+pub fn mb_strings_mutant(src: &str, name: &str) -> Option<String> {
+    let p = parse_quiet(src, name)?;
+    let toks = token_stream(&p);
+    let (pre, mut texts, gaps, post) = split_gaps(src, &toks)?;
+    let mut n = 0;
+    for t in texts.iter_mut() {
+        if !t.1 && t.0.starts_with('"') && t.0.len() >= 2 {
+            t.0.insert_str(1, ["温度センサ ", "é→", "😀 ß "][n % 3]);
+            n += 1;
+        }
+    }
+    if n == 0 {
+        return None;
+    }
+    let mut out = pre;
+    for (k, (t, _)) in texts.iter().enumerate() {
+        out.push_str(t);
+        if k < gaps.len() {
+            out.push_str(&gaps[k]);
+        }
+    }
+    out.push_str(&post);
+    parse_quiet(&out, name).map(|_| out)
 }
 
 // ---------------------------------------------------------------------------------------------
